@@ -27,11 +27,12 @@ func init() {
 	})
 	register(&Property{
 		ID: "C33",
-		Explanation: "Decides effects and order of repair index: (no-pack-removal) the call closure of repository.RepairIndex (static callees, function literals, function values, interface calls resolved by class-hierarchy analysis over the module; calls on backend.Backend are the effect boundary) contains neither PrunePlan.Execute nor RepairPacks — the only pack removers by rule pack-removers —, every removal call with a constant file type in the closure names IndexFile, and the only direct backend Remove in it is the removeUnpacked wrapper; (repair-order) rewriteIndexFiles is reachable from the pack-reading step only through createIndexFromPacks' success edge and after successful listings; in createIndexFromPacks a pack's entries enter the index (StorePack) only on the success edge of listPack for that pack with the entries just listed — unreadable packs are never indexed — and success requires the workers and the flush to succeed; (rewrite-order) obsolete index files are removed only after all new ones were saved; (reread-implies-removed) in the pack listing callback of RepairIndex every pack put into the to-read map is inserted into removePacks (the set whose entries Rewrite drops) with the same ID, both happen for packs unknown to the index and for size mismatches (specialised evaluation of the lookup result and the size comparison), and packs the index mentions but the listing lacks are inserted too — added after a seeded change that kept stale entries of size-mismatched packs; (kept-index-has-no-excluded-pack) MasterIndex.Rewrite leaves an index file unchanged only behind len(idx.Packs().Intersect(excludePacks)) == 0, otherwise the file is marked obsolete and its other entries are re-stored through the filtering iterator (added after a seeded change that dropped the test from the fast path for full index files). Not decided: that the listed positions equal the true positions (C06) for every pack content.",
+		Explanation: "Decides effects and order of repair index: (no-pack-removal) the call closure of repository.RepairIndex (static callees, function literals, function values, interface calls resolved by class-hierarchy analysis over the module; calls on backend.Backend are the effect boundary) contains neither PrunePlan.Execute nor RepairPacks — the only pack removers by rule pack-removers —, every removal call with a constant file type in the closure names IndexFile, and the only direct backend Remove in it is the removeUnpacked wrapper; (repair-order) rewriteIndexFiles is reachable from the pack-reading step only through createIndexFromPacks' success edge and after successful listings; in createIndexFromPacks a pack's entries enter the index (StorePack) only on the success edge of listPack for that pack with the entries just listed — unreadable packs are never indexed — and success requires the workers and the flush to succeed; (rewrite-order) obsolete index files are removed only after all new ones were saved; (reread-implies-removed) in the pack listing callback of RepairIndex every pack put into the to-read map is inserted into removePacks (the set whose entries Rewrite drops) with the same ID, both happen for packs unknown to the index and for size mismatches (specialised evaluation of the lookup result and the size comparison), and packs the index mentions but the listing lacks are inserted too — added after a seeded change that kept stale entries of size-mismatched packs; (kept-index-has-no-excluded-pack) MasterIndex.Rewrite leaves an index file unchanged only behind len(idx.Packs().Intersect(excludePacks)) == 0, otherwise the file is marked obsolete and its other entries are re-stored through the filtering iterator (added after a seeded change that dropped the test from the fast path for full index files). (listpack-retries) listPack gives a pack up only after a second pack.List failed too — repair index leaves out a pack whose header could not be listed and still succeeds, so one damaged read must not count (added after a seeded change that retried only with a cache configured). Not decided: that the listed positions equal the true positions (C06) for every pack content.",
 		Assumptions: commonAssumptions,
 		Technique:   "static analysis: call-graph effect closure (CHA within the module, backend interface as boundary) + CFG edge cuts (go/ssa)",
 		AllConfigs:  true,
 		Run: func(c *eng.Ctx) {
+			ruleListPackRetries(c)
 			ruleNoPackRemoval(c)
 			ruleRepairIndexOrder(c)
 			ruleRewriteOrder(c)
@@ -41,6 +42,8 @@ func init() {
 			ruleRereadImpliesRemoved(c)
 		},
 		Controls: []Control{
+			{Name: "listpack-single-attempt-after-forget-error", File: "internal/repository/repository.go",
+				Old: "		// retry on error\n		entries, _, err = pack.List(r.Key(), backend.ReaderAt(ctx, r.be, h), size)\n", New: "		// retry on error\n		if size > 0 && r.cache != nil {\n			entries, _, err = pack.List(r.Key(), backend.ReaderAt(ctx, r.be, h), size)\n		}\n", Rule: "listpack-retries"},
 			{Name: "full-index-kept-when-it-names-one-excluded-pack", File: "internal/repository/index/master_index.go",
 				Old: "			if len(task.idx.Packs().Intersect(excludePacks)) == 0 && Full(task.idx) && !Oversized(task.idx) {", New: "			if len(task.idx.Packs().Intersect(excludePacks)) <= 1 && Full(task.idx) && !Oversized(task.idx) {", Rule: "kept-index-has-no-excluded-pack"},
 			{Name: "size-mismatch-keeps-stale-entries", File: "internal/repository/repair_index.go",
